@@ -150,6 +150,13 @@ func (m *monitor) runPubSub(ns *rig.NatsServer, n int) {
 			if pc.TOms > 0 {
 				ctx.SetTimeout(time.Duration(pc.TOms) * time.Millisecond)
 			}
+			if i%5 == 1 || rng.Intn(8) == 0 {
+				// "no deadline": nothing waits on a publish, so it always completes
+				d, cls := genNoDeadline(rng)
+				ctx.SetTimeout(d)
+				pc.TOCls, pc.TOms = cls, int64(d/time.Millisecond)
+				m.run.Add("pubsub_no_deadline_timeouts", 1)
+			}
 			for _, p := range pc.Req.Pairs {
 				ctx.AddRequestHeader(p.Name, p.Value)
 			}
@@ -216,7 +223,13 @@ func (m *monitor) runPubSub(ns *rig.NatsServer, n int) {
 					}
 					m.run.Violation("C09:"+kind+":"+name, "the request headers the subscriber callback observes differ from the publisher's FContext", pc.witness(&o, map[string]interface{}{"diff": diffMaps(want, got)}))
 				}
-				if o.timeout != pc.pubTimeout {
+				placed := 5 * time.Second
+				if pc.TOms != 0 || pc.TOCls == "zero" || pc.TOCls == "negative" {
+					placed = time.Duration(pc.TOms) * time.Millisecond
+				}
+				if o.timeout != placed {
+					m.run.Violation("C09:subscriber-timeout-differs:"+name, "subscriber-side ctx.Timeout() is not the timeout the publisher placed on the FContext with SetTimeout (whole milliseconds; 0 or negative = no deadline)", pc.witness(&o, map[string]interface{}{"placed_timeout_ns": int64(placed)}))
+				} else if o.timeout != pc.pubTimeout {
 					m.run.Violation("C09:subscriber-timeout-differs:"+name, "subscriber-side ctx.Timeout() differs from the publisher's", pc.witness(&o, nil))
 				}
 				sop, ok := o.req["_opid"]
